@@ -3,7 +3,7 @@ package c13
 // Option pairs. Many option dependent faults need two options at once (a mode that
 // enables a code path and a value that breaks it: bits_format=snippet with sizebase=1,
 // color with a byte_colors range, ...). Every scalar option of the live `options`
-// object is a factor with typed levels (number: absent,-1,0,1,37,2^31; boolean: absent,
+// object is a factor with typed levels (number: absent,-1,0,1,37,256; boolean: absent,
 // true,false; string: absent, "", "a", the default and every string literal the Go
 // source switches the option on); a strength-2 covering array over all factors gives a
 // few hundred option objects that contain EVERY pair of (option=level, option=level).
@@ -101,7 +101,7 @@ func optionFactors(opts map[string]any, enums map[string][]string) []optFactor {
 		case bool:
 			f.levels = append(f.levels, true, false)
 		case int, float64:
-			f.levels = append(f.levels, -1, 0, 1, 37, 2147483648)
+			f.levels = append(f.levels, -1, 0, 1, 37, 256) // huge values (2^31: runaway loops) are in the single option objects
 		case string:
 			seen := map[string]bool{}
 			for _, v := range append(append([]string{"", "a", d}, enums[k]...), "") {
